@@ -445,6 +445,13 @@ func (u *clientUpdater) updateService(ctx context.Context, service ServiceDefini
 		}
 	}
 	for _, presentation := range presentations {
+		// The server decides what it returns: only a presentation that a Discovery Service can register (a JWT with an ID) can be stored.
+		if presentation.Format() != vc.JWTPresentationProofFormat {
+			return fmt.Errorf("invalid presentation from discovery service (id=%s): %w", service.ID, errUnsupportedPresentationFormat)
+		}
+		if presentation.ID == nil {
+			return fmt.Errorf("invalid presentation from discovery service (id=%s): %w", service.ID, errPresentationWithoutID)
+		}
 		// Check if the presentation already exists
 		credentialSubjectID, err := credential.PresentationSigner(presentation)
 		if err != nil {
